@@ -127,5 +127,9 @@ print(len(mref['functions']), 'functions with in-place updates or handlers')
 from stonelint import orderdrift
 oref = orderdrift.build_reference(pm1)
 json.dump(oref, open(os.path.join(HERE, 'reference', 'order.json'), 'w'), indent=0, sort_keys=True)
+from stonelint import usedef
+uref = usedef.build_reference(pm1)
+json.dump(uref, open(os.path.join(HERE, 'reference', 'usedef.json'), 'w'), indent=0, sort_keys=True)
+print(len(uref['functions']), 'functions with use-def tables')
 print(len(oref['functions']), 'functions with update/read pairs,',
       sum(len(v) for v in oref['functions'].values()), 'pairs')
